@@ -127,7 +127,7 @@ def run_iface(programs, chooser=None, free=False):
             t.join(timeout=120)
     finally:
         I._PATH_CACHE = saved
-    return {"results": results, "schedule": list(ctl.effective), "enabled": ctl.enabled_log,
+    return {"results": results, "schedule": list(ctl.effective), "enabled": ctl.enabled_log, "blocked": ctl.degraded,
             "seg_labels": list(ctl.seg_labels), "misses": [r["misses"] for r in recs],
             "stored": sorted(proxy.stored), "completed": completed and all(not t.is_alive() for t in ths)}
 
@@ -187,7 +187,9 @@ def check(ctx, drv, programs, chooser, tag):
                       {"case": case, "failed": [bad[0], bad[1]]},
                       f"array_contract_path(cache=True): {bad[0]} {bad[1]}")
         return obs, False
-    if drv is not None:
+    if obs.get("blocked"):
+        ctx.count("runs_with_a_thread_blocked_outside_the_controller")
+    elif drv is not None:
         try:
             diff = compare(drv, programs, obs)
         except Exception as e:
